@@ -210,3 +210,44 @@ Definition pairs_eqb (a b : list (Z * Z)) : bool :=
      | (p, q) :: x', (r, s) :: y' => (p =? r) && (q =? s) && go x' y'
      | _, _ => false
      end) a b.
+
+(* ---- closest_level with threshold_res.  ths_desc = self.threshold_res (sorted ascending) reversed, so that
+   thresholds.pop() is the head of the list; the requested resolution is rn / rd. *)
+(* while threshold > prev_l_res and thresholds: threshold = thresholds.pop() *)
+Fixpoint thr_skip (r0 t : Z) (rest : list Z) : Z * list Z :=
+  match rest with
+  | [] => (t, [])
+  | t' :: rest' => if r0 <? t then thr_skip r0 t' rest' else (t, rest)
+  end.
+Definition thr_init (r0 : Z) (ths_desc : list Z) : option Z * list Z :=
+  match ths_desc with
+  | [] => (None, [])
+  | t :: rest => let '(t', rest') := thr_skip r0 t rest in (Some t', rest')
+  end.
+Fixpoint closest_thr_loop (g : grid) (rn rd : Z) (rs : list Z) (level prev : Z) (th : option Z) (ths : list Z)
+         (tr : option Z) (last : Z) : Z :=
+  match rs with
+  | [] => last
+  | l_res :: rest =>
+    (* if threshold and prev_l_res > threshold >= l_res *)
+    let hit := match th with Some t => negb (t =? 0) && (t <? prev) && (l_res <=? t) | None => false end in
+    let early := match th with
+                 | Some t => if hit then (if t * rd <? rn then Some (level - 1)
+                                          else if l_res * rd <=? rn then Some level else None)
+                             else None
+                 | None => None
+                 end in
+    match early with
+    | Some k => k
+    | None =>
+      let '(th', ths') := if hit then match ths with [] => (None, []) | t' :: r' => (Some t', r') end else (th, ths) in
+      let stop := match tr with Some _ => l_res * rd <? rn | None => false end in
+      if stop then match tr with Some t => t | None => last end
+      else
+        let tr' := if l_res * rd * sf_d g <=? rn * sf_n g then Some level else tr in
+        closest_thr_loop g rn rd rest (level + 1) l_res th' ths' tr' level
+    end
+  end.
+Definition closest_level_thr (g : grid) (ths_asc : list Z) (rn rd : Z) : Z :=
+  let '(th, ths) := thr_init (res_at g 0) (rev ths_asc) in
+  closest_thr_loop g rn rd (ress g) 0 (res_at g 0) th ths None (-1).
